@@ -274,20 +274,20 @@ func (e *Engine) findFunc(pkgPath, key string) *ssa.Function {
 // ---------------------------------------------------------------------------
 
 type FuncResult struct {
-	Func        string
-	Key         string
-	Pkg         string
-	Status      string // "verified-input" (obligations generated) / "outside-subset"
-	Error       string
-	Obligations []*Obligation
-	Inlined     []string
-	Externs     []string
-	Natives     []string
-	Noops       []string
-	Notes       []string
-	Inputs      []inputVar
-	Used        []*FuncContract // callee contracts (non-extern) relied upon
-	UnknownIdent string         // the contract names something the function no longer has (see rebind.go)
+	Func         string
+	Key          string
+	Pkg          string
+	Status       string // "verified-input" (obligations generated) / "outside-subset"
+	Error        string
+	Obligations  []*Obligation
+	Inlined      []string
+	Externs      []string
+	Natives      []string
+	Noops        []string
+	Notes        []string
+	Inputs       []inputVar
+	Used         []*FuncContract // callee contracts (non-extern) relied upon
+	UnknownIdent string          // the contract names something the function no longer has (see rebind.go)
 }
 
 func newRun(e *Engine, fn *ssa.Function, fc *FuncContract) *Run {
